@@ -194,6 +194,10 @@ TARGETS = [
     dict(fn='osmium::detail::parse_timestamp', sig='(const char **)', rhs='tm.tm_hour', name='parse_timestamp_hour'),
     dict(fn='osmium::detail::parse_timestamp', sig='(const char **)', rhs='tm.tm_min', name='parse_timestamp_min'),
     dict(fn='osmium::detail::parse_timestamp', sig='(const char **)', rhs='tm.tm_sec', name='parse_timestamp_sec'),
+    # … and the 37 conjuncts of its big condition before `(str[19] == 'Z' || fractional_seconds(s))` (`and_left=1`)
+    dict(fn='osmium::detail::parse_timestamp', sig='(const char **)', cond=0, and_left=1, name='parse_timestamp_cond_pattern'),
+    dict(fn='osmium::io::detail::utf8_sequence_length'),
+    dict(fn='osmium::io::detail::next_utf8_codepoint'),
 ]
 
 
